@@ -85,8 +85,35 @@ func ignoreDomainOK(o *Obs) bool {
 	return true
 }
 
+// configLoads: the config file is one Goit loads (a file it rejects makes every command fail at start-up,
+// which the command models, apart from `commit`, do not take as an input)
+func configLoads(b []byte) bool {
+	sec := false
+	for _, l := range strings.Split(string(b), "\n") {
+		l = strings.TrimSuffix(l, "\r")
+		if strings.HasPrefix(l, "[") && strings.HasSuffix(l, "]") && len(l) >= 2 {
+			if len(l) <= 2 {
+				return false
+			}
+			sec = true
+			continue
+		}
+		t := strings.TrimSpace(strings.ReplaceAll(l, "\t", ""))
+		if t == "" {
+			continue
+		}
+		if !strings.Contains(t, "=") || !sec {
+			return false
+		}
+	}
+	return true
+}
+
 func deriveCmdLine(t *Trans) *Derived {
 	if len(t.Args) == 0 || !t.Pre.Inited || !t.Pre.IndexOK || len(t.Pre.Files) > 40 || !ignoreDomainOK(t.Pre) {
+		return nil
+	}
+	if t.Args[0] != "commit" && (!configLoads(t.Pre.CfgLocal) || !configLoads(t.Pre.CfgGlobal)) {
 		return nil
 	}
 	if t.Res.Class != "ok" && t.Res.Class != "error" {
